@@ -52,7 +52,7 @@ func c13Trace(root *ssa.Function, maxVisits int, atomic ...string) *c13T {
 	for _, a := range atomic {
 		isAtomic[a] = true
 	}
-	tr := &an.Tracer{Root: root, MaxVisits: maxVisits, MaxPaths: 60000, Inline: func(f *ssa.Function) bool {
+	tr := &an.H13Tracer{Root: root, MaxVisits: maxVisits, MaxPaths: 60000, Inline: func(f *ssa.Function) bool {
 		if isAtomic[an.FuncName(f)] && f.Synthetic == "" {
 			return false
 		}
